@@ -89,11 +89,23 @@ class RectPartition(object):
 
         self.__cell_boundary_vecs = tuple(bdry_vecs)
 
-        # Initialize nodes_on_bdry
-        left_on_bdry = np.isclose(self.grid.min_pt, self.set.min_pt)[:, None]
-        right_on_bdry = np.isclose(self.grid.max_pt, self.set.max_pt)[:, None]
-        on_bdry = np.hstack([left_on_bdry, right_on_bdry]).tolist()
-        self.__nodes_on_bdry = tuple(tuple(r) for r in on_bdry)
+        # Initialize nodes_on_bdry. A grid point lies on the boundary if its
+        # distance to the boundary is negligible compared to the adjacent
+        # grid stride (to the extent of the set in axes with 1 grid point),
+        # not compared to the magnitude of the coordinates.
+        on_bdry = []
+        for vec, xmin, xmax in zip(self.grid.coord_vectors,
+                                   self.set.min_pt, self.set.max_pt):
+            if len(vec) > 1:
+                scale_l, scale_r = vec[1] - vec[0], vec[-1] - vec[-2]
+            else:
+                scale_l = scale_r = xmax - xmin
+            on_bdry.append(tuple(
+                bool(dist == 0 or
+                     (np.isfinite(scale) and dist <= 1e-5 * scale))
+                for dist, scale in [(vec[0] - xmin, scale_l),
+                                    (xmax - vec[-1], scale_r)]))
+        self.__nodes_on_bdry = tuple(on_bdry)
 
     @property
     def cell_boundary_vecs(self):
